@@ -1,0 +1,9 @@
+//go:build verif
+
+package consensus
+
+// VerifReactorWaitSync returns a bare Reactor whose WaitSync() answers waitSync (what rpc/core
+// consults to decide whether the node is catching up). For the /verif harness only.
+func VerifReactorWaitSync(waitSync bool) *Reactor {
+	return &Reactor{waitSync: waitSync}
+}
